@@ -503,12 +503,12 @@ enum Claim {
 
 const EXPANSION_BUDGET: u64 = 1 << 20;
 
-fn measure(img: &[u8]) -> Claim {
+fn measure(img: &[u8]) -> V<Claim> {
     let Ok(h) = spec::parse_header(img) else {
-        return Claim::In;
+        return Ok(Claim::In);
     };
     if !(1..=4).contains(&h.ic) {
-        return Claim::In;
+        return Ok(Claim::In);
     }
     enum Item {
         Enter(u64, u64),
@@ -525,11 +525,11 @@ fn measure(img: &[u8]) -> Claim {
             Item::Enter(o, l) => {
                 steps += 1;
                 if steps > EXPANSION_BUDGET {
-                    return Claim::Out;
+                    return Ok(Claim::Out);
                 }
                 if !on_path.insert((o, l)) {
                     // a cycle: invalid input, inside the claim
-                    return Claim::In;
+                    return Ok(Claim::In);
                 }
                 stack.push(Item::Exit(o, l));
                 // a section longer than the file (or with a length near 2^64): a reader bounded by
@@ -545,17 +545,25 @@ fn measure(img: &[u8]) -> Claim {
                 let work = |es: &Vec<SpecEntry>| es.iter().map(|e| u64::from(e.run_length).max(1)).fold(0u64, u64::saturating_add);
                 let a = decode_dir_generous(&spec::decompress_lenient(h.ic, raw, 64 << 20));
                 let b = if h.ic == 1 { None } else { decode_dir_generous(&spec::decompress_lenient_async(h.ic, raw, 64 << 20)) };
-                let es = match (a, b) {
-                    (Some(x), Some(y)) => {
-                        if work(&y) > work(&x) {
-                            y
-                        } else {
-                            x
-                        }
-                    }
-                    (Some(x), None) | (None, Some(x)) => x,
-                    (None, None) => continue,
+                // further witnesses: what the crate's own parser reads out of these bytes (sync, and
+                // async under one-byte reads). If the crate itself sees a directory that declares
+                // huge runs, expanding them is work proportional to declared run lengths.
+                let to_spec = |d: pmtiles2::Directory| -> Vec<SpecEntry> { (&d).into_iter().map(|e| SpecEntry { tile_id: e.tile_id, offset: e.offset, length: e.length, run_length: e.run_length }).collect() };
+                let c = sut::guard("Directory::from_bytes", || pmtiles2::Directory::from_bytes(raw, crate::sut::comp(h.ic)))?.ok().map(to_spec);
+                let d = if h.ic == 1 {
+                    None
+                } else {
+                    let one = Policy { rd: Xfer::One, wr: Xfer::Full, pend: Pend::NEVER, seed: 0 };
+                    let mut disk = SimDisk::new(raw.to_vec(), &one);
+                    sut::guard_async("Directory::from_async_reader", pmtiles2::Directory::from_async_reader(&mut disk, raw.len() as u64, crate::sut::comp(h.ic)))?.ok().map(to_spec)
                 };
+                let mut best: Option<Vec<SpecEntry>> = None;
+                for cand in [a, b, c, d].into_iter().flatten() {
+                    if best.as_ref().map_or(true, |x| work(&cand) > work(x)) {
+                        best = Some(cand);
+                    }
+                }
+                let Some(es) = best else { continue };
                 for e in es.iter().rev() {
                     if e.run_length == 0 {
                         if let Some(lo) = h.leaf_offset.checked_add(e.offset) {
@@ -564,22 +572,36 @@ fn measure(img: &[u8]) -> Claim {
                     } else {
                         steps += u64::from(e.run_length);
                         if steps > EXPANSION_BUDGET {
-                            return Claim::Out;
+                            return Ok(Claim::Out);
                         }
                     }
                 }
             }
         }
     }
-    Claim::In
+    Ok(Claim::In)
 }
 
 /// Directory decoding for the claim measure only: as generous as any streaming reader could be
 /// (32-bit columns keep the low 32 bits of a wider value, wrapping sums are tolerated), so that
 /// "declares too much work" is never under-estimated. None = no reader could get a list out.
+/// LEB128 as generously as any reader could take it: up to 10 bytes, overflowing bits dropped.
+fn get_varint_generous(b: &[u8], pos: &mut usize) -> Option<u64> {
+    let mut v: u64 = 0;
+    for i in 0..10u32 {
+        let byte = *b.get(*pos)?;
+        *pos += 1;
+        v |= u64::from(byte & 0x7f).checked_shl(7 * i).unwrap_or(0);
+        if byte & 0x80 == 0 {
+            return Some(v);
+        }
+    }
+    None
+}
+
 fn decode_dir_generous(b: &[u8]) -> Option<Vec<SpecEntry>> {
     let mut p = 0usize;
-    let n = spec::get_varint(b, &mut p).ok()?;
+    let n = get_varint_generous(b, &mut p)?;
     if n > (b.len() as u64) {
         return None;
     }
@@ -587,17 +609,17 @@ fn decode_dir_generous(b: &[u8]) -> Option<Vec<SpecEntry>> {
     let mut es = vec![SpecEntry { tile_id: 0, offset: 0, length: 0, run_length: 0 }; n];
     let mut last = 0u64;
     for e in es.iter_mut() {
-        last = last.wrapping_add(spec::get_varint(b, &mut p).ok()?);
+        last = last.wrapping_add(get_varint_generous(b, &mut p)?);
         e.tile_id = last;
     }
     for e in es.iter_mut() {
-        e.run_length = spec::get_varint(b, &mut p).ok()? as u32;
+        e.run_length = get_varint_generous(b, &mut p)? as u32;
     }
     for e in es.iter_mut() {
-        e.length = spec::get_varint(b, &mut p).ok()? as u32;
+        e.length = get_varint_generous(b, &mut p)? as u32;
     }
     for i in 0..n {
-        let v = spec::get_varint(b, &mut p).ok()?;
+        let v = get_varint_generous(b, &mut p)?;
         es[i].offset = if v == 0 && i > 0 { es[i - 1].offset.wrapping_add(u64::from(es[i - 1].length)) } else { v.wrapping_sub(1) };
     }
     Some(es)
@@ -747,7 +769,7 @@ fn exec_hostile(case: &Value, ctx: &mut Ctx) -> V<()> {
     ctx.evals += 1;
     let (name, img) = materialise(&c);
     ctx.trace(|| format!("input: {name}, {} bytes", img.len()));
-    if measure(&img) == Claim::Out {
+    if measure(&img)? == Claim::Out {
         ctx.bump("skipped_outside_claim_expansion_budget", 1);
         return Ok(());
     }
@@ -924,6 +946,23 @@ pub fn dump_main(case_json: &str) -> i32 {
         }
         Err(e) => println!("header: {e}"),
     }
-    println!("measure: {:?}", measure(&img));
+    if let Ok(h) = spec::parse_header(&img) {
+        if let Ok(root) = spec::read_dir_at(&img, h.ic, h.root_offset, h.root_length.min(img.len() as u64)) {
+            for e in root.iter().filter(|e| e.run_length == 0).take(4) {
+                let o = h.leaf_offset.saturating_add(e.offset);
+                let end = o.saturating_add(u64::from(e.length)).min(img.len() as u64);
+                if o < end {
+                    let raw = &img[o as usize..end as usize];
+                    let a = decode_dir_generous(&spec::decompress_lenient(h.ic, raw, 64 << 20));
+                    let b = decode_dir_generous(&spec::decompress_lenient_async(h.ic, raw, 64 << 20));
+                    let f = |x: &Option<Vec<SpecEntry>>| x.as_ref().map(|v| (v.len(), v.iter().map(|e| u64::from(e.run_length)).max()));
+                    println!("leaf at {o}+{}: sync lenient {:?}, async lenient {:?}", e.length, f(&a), f(&b));
+                    let c = pmtiles2::Directory::from_bytes(raw, crate::sut::comp(h.ic));
+                    println!("   crate: {:?}", c.map(|d| ((&d).into_iter().count(), (&d).into_iter().map(|e| e.run_length).max())));
+                }
+            }
+        }
+    }
+    println!("measure: {:?}", measure(&img).map_err(|v| v.class));
     0
 }
